@@ -69,7 +69,7 @@ def op_strategy(draw, style):
     if kind == "construct":
         is_int = draw(st.booleans())
         ents, form = draw(raw_entries(style, is_int))
-        op.update(type="interval" if is_int else "point", entries=ents, form=form,
+        op.update(type="interval" if is_int else "point", entries=ents, form=form, wrap=draw(st.sampled_from(["list", "tuple", "obj", "obj"])),
                   minT=draw(st.one_of(st.none(), st.just(0.0), lat)), maxT=draw(st.one_of(st.none(), lat, st.just(10.0))))
     elif kind in ("crop", "erase"):
         a, b = draw(lat), draw(lat)
@@ -154,6 +154,10 @@ def apply_op(tiers: list, op: dict) -> StepResult:
         r.receiver = None
         ents = [[_conv(x, op["form"]) for x in e[:-1]] + [e[-1]] for e in op["entries"]]
         cls = p.IntervalTier if op["type"] == "interval" else p.PointTier
+        if op.get("wrap") == "tuple":
+            ents = [tuple(e) for e in ents]
+        elif op.get("wrap") == "obj":  # the library's own entry types, as a caller copying entries between tiers passes them
+            ents = [(p.Interval if op["type"] == "interval" else p.Point)(*e) for e in ents]
         if op["minT"] is not None and op["maxT"] is not None and op["minT"] > op["maxT"]:
             r.in_domain = False
         r.result = call(lambda: cls("c", ents, op["minT"], op["maxT"]))
